@@ -30,6 +30,7 @@ pub mod c18;
 pub mod c19;
 pub mod c19proc;
 pub mod c19sess;
+pub mod frontdoor;
 pub mod c20;
 pub mod pipes;
 
